@@ -186,9 +186,8 @@ def run_case(case):
         kind = 'sub' if (P.get('children') and brng.random() < 0.4) \
             else 'root'
         run = ec.execute(case, plan=[{'at': b, 'op': _pause_op(
-            state, kind, brng)}], phases=[_resume_phase(state),
-                                          _resume_leftover_phase(state),
-                                          _resume_leftover_phase(state)])
+            state, kind, brng)}], phases=[_resume_phase(state)] + [
+                _resume_leftover_phase(state) for _ in range(6)])
         res['executions'] += 1
         _collect(res, run)
         if run.inconclusive:
